@@ -1276,28 +1276,29 @@ func (rn *runner) iteration(i int) {
 	}
 	path += ep.suffix
 	req := request{user, plan, ep.method, path, sentCtype, raw}
-	// ---- header / routing mutations: not modelled, O4 only
-	if g.r.Chance(3) {
-		switch g.r.Intn(5) {
+	// ---- header mutations (modelled: the header middleware answers 400 before anything else)
+	if g.r.Chance(4) {
+		switch g.r.Intn(3) {
 		case 0:
-			req.user = ""
+			req.user = vh.Pick(g.r, []string{"", ".", "..", "a/b", "a\\b", "/", "\\", "alice/..", "../alice", "alice/base1", "./alice"})
 		case 1:
-			req.plan = ""
-		case 2:
-			req.plan = "NOSUCHPLAN"
-		case 3:
+			req.plan = vh.Pick(g.r, []string{"", "NOSUCHPLAN", "basic", "."})
+		default:
+			req.user, req.plan = vh.Pick(g.r, []string{"", "..", "a/b"}), vh.Pick(g.r, []string{"", "NOSUCHPLAN"})
+		}
+		mutKind = strings.TrimPrefix(mutKind+"+header", "+")
+	}
+	// ---- routing mutations: not modelled, O4 only
+	if g.r.Chance(2) {
+		switch g.r.Intn(2) {
+		case 0:
 			req.method = vh.Pick(g.r, []string{"PATCH", "HEAD", "OPTIONS", "PUT", "GET", "DELETE", "POST"})
 		default:
 			req.path = vh.Pick(g.r, []string{"/v3/collections", "/", "/v2", "/v2/collections/" + cid + "/points/search/extra", "/v2/collection", "/v1/collections/" + cid + "/point", "/v2/collections/" + cid + "/points?x=1", "/metrics", "/v2/ping/x"})
 		}
-		st := rn.judge(req, epName, sentCtype, "header-or-route", "", key, "")
+		st := rn.judge(req, epName, sentCtype, "route", "", key, "")
 		if st >= 200 && st < 300 {
-			known200 := (req.method == ep.method && req.path == path) || req.method == "HEAD" || strings.Contains(req.path, "?x=1") ||
-				(req.user != "" && req.plan != "" && req.plan != "NOSUCHPLAN" && st == 200)
-			if req.user == "" || req.plan == "" || req.plan == "NOSUCHPLAN" {
-				known200 = false
-			}
-			if !known200 {
+			if !headersValid(req.user, req.plan) {
 				rn.fail("accepted-without-headers:"+epName, "a request without valid X-User-Id / X-Plan-Id headers was answered 2xx", []string{req.line()})
 			}
 			rn.refresh()
@@ -1333,8 +1334,8 @@ func (rn *runner) iteration(i int) {
 				}
 			}
 		}
-		hline = fmt.Sprintf("h %s plan=%d,%d,%d ncols=%d exists=%d cid=%d found=%d count=%d ; %s ; %s",
-			epName, pn[0], pn[1], pn[2], len(rn.w.cols[user]), exists, len(cid), found, count, schemaT, tokens)
+		hline = fmt.Sprintf("h %s plan=%d,%d,%d ncols=%d exists=%d cid=%d found=%d count=%d%s ; %s ; %s",
+			epName, pn[0], pn[1], pn[2], len(rn.w.cols[user]), exists, len(cid), found, count, hdrArgs(req.user, req.plan), schemaT, tokens)
 	}
 	// the property judges valid requests only while distances stay finite: a write that puts
 	// non-finite / astronomically large numbers into an INDEXED VECTOR taints the collection (5xx
@@ -1364,6 +1365,18 @@ func (rn *runner) iteration(i int) {
 }
 
 type resp200 struct{}
+
+// the headers as the model sees them
+func hdrArgs(user, plan string) string {
+	_, ok := userPlans[plan]
+	return fmt.Sprintf(" user=%s planid=%s planok=%s", strTok(user), strTok(plan), vh.B01(ok))
+}
+
+// the harness' own statement of the documented header rule (used for the unmodelled route mutations)
+func headersValid(user, plan string) bool {
+	_, ok := userPlans[plan]
+	return ok && user != "" && user != "." && user != ".." && !strings.ContainsAny(user, "/\\")
+}
 
 func isBase(id string) bool {
 	for _, c := range baseCols {
